@@ -439,6 +439,8 @@ package parser
 
 //@ func (p *Parser) parseBlockStatement
 //@   include ParseFrame
+//@   ensures [C18:block] result2 == nil ==> (result0 != nil && fresh(result0))
+//@   loopinv [C18:block-inv] block != nil && fresh(block)
 //@   requires [C18:start-token] 1 <= startToken.LineNumber && startToken.LineNumber <= startToken.EndLineNumber && startToken.LineNumber <= p.curToken.LineNumber
 //@   loopinv [C06:slot-inv] impData != nil && fresh(impData) && ImpOK(impData)
 //@   loopinv [C06:complete-inv] ImpSize(impData) == holes - old(holes)
@@ -452,6 +454,8 @@ package parser
 
 //@ func (p *Parser) parseSwitchBlockStatement
 //@   include ParseFrame
+//@   ensures [C18:block] result2 == nil ==> (result0 != nil && fresh(result0))
+//@   loopinv [C18:block-inv] block != nil && fresh(block)
 //@   requires [C18:start-token] 1 <= startToken.LineNumber && startToken.LineNumber <= startToken.EndLineNumber && startToken.LineNumber <= p.curToken.LineNumber
 //@   loopinv [C06:slot-inv] impData != nil && fresh(impData) && ImpOK(impData)
 //@   loopinv [C06:complete-inv] ImpSize(impData) == holes - old(holes)
@@ -645,6 +649,14 @@ package parser
 //@        && (prev(p.curToken.Type) == token.IDENT ==> (len(martCommands) == len(prev(martCommands)) + 1 && martCommands[len(prev(martCommands))] == prev(p.curToken)))
 //@ end
 
+// ---- mapscripts (C08): an inline script is a local script named after its map and type (and table index), and the
+// entry that refers to it carries the same name ----
+//@ pred InlineScriptOK(sc *ast.ScriptStatement, name string) = sc == nil || (allocated(sc) && allocated(sc.Name) && sc.Name.Value == name && sc.Body != nil && sc.Scope == token.LOCAL)
+//@ pred PlainEntryOK(m ast.MapScript, mapName string) = InlineScriptOK(m.Script, m.Name) && (m.Script != nil ==> m.Name == sprintf("%s_%s", mapName, m.Type.Literal))
+//@ pred TableEntryOK(en ast.TableMapScriptEntry, mapName string, ty string, k int) = InlineScriptOK(en.Script, en.Name) && (en.Script != nil ==> en.Name == sprintf("%s_%s_%d", mapName, ty, k))
+//@ pred TableOK(t ast.TableMapScript, mapName string) = t.Name == sprintf("%s_%s", mapName, t.Type.Literal)
+//@   && (forall k int :: {t.Entries[k]} (0 <= k && k < len(t.Entries)) ==> TableEntryOK(t.Entries[k], mapName, t.Type.Literal, k))
+
 //@ func (p *Parser) parseMapscriptsStatement
 //@   include ParseFrame
 //@   ensures [C15:default-scope] result2 == nil ==> (result0 != nil && result0.Scope == old(ScopeFor(p, token.GLOBAL)) && (result0.Scope == token.GLOBAL || result0.Scope == token.LOCAL || old(p.peekToken.Type) != token.LPAREN))
@@ -656,6 +668,31 @@ package parser
 //@   ensures [C20:stack-balanced] result2 == nil ==> (SameStack(p.breakStack, old(p.breakStack)) && SameStack(p.continueStack, old(p.continueStack)))
 //@   ensures [C18:located] result2 != nil ==> ErrLoc(result2)
 //@   loopinv [C20:stack-balanced-inv] SameStack(p.breakStack, old(p.breakStack)) && SameStack(p.continueStack, old(p.continueStack))
+//@   ensures [C08:inline-names] result2 == nil ==> (result0 != nil && result0.Name != nil
+//@        && (forall k int :: {result0.MapScripts[k]} (0 <= k && k < len(result0.MapScripts)) ==> PlainEntryOK(result0.MapScripts[k], result0.Name.Value))
+//@        && (forall t int :: {result0.TableMapScripts[t]} (0 <= t && t < len(result0.TableMapScripts)) ==> TableOK(result0.TableMapScripts[t], result0.Name.Value)))
+//@   loop 1
+//@     invariant [C08:inline-names-inv] statement != nil && fresh(statement) && statement.Name != nil && fresh(statement.Name)
+//@        && (forall k int :: {statement.MapScripts[k]} (0 <= k && k < len(statement.MapScripts)) ==> PlainEntryOK(statement.MapScripts[k], statement.Name.Value))
+//@        && (forall t int :: {statement.TableMapScripts[t]} (0 <= t && t < len(statement.TableMapScripts)) ==> TableOK(statement.TableMapScripts[t], statement.Name.Value))
+//@   loop 2
+//@     invariant [C08:inline-names-inv] statement != nil && fresh(statement) && statement.Name != nil && fresh(statement.Name)
+//@        && (forall k int :: {statement.MapScripts[k]} (0 <= k && k < len(statement.MapScripts)) ==> PlainEntryOK(statement.MapScripts[k], statement.Name.Value))
+//@        && (forall t int :: {statement.TableMapScripts[t]} (0 <= t && t < len(statement.TableMapScripts)) ==> TableOK(statement.TableMapScripts[t], statement.Name.Value))
+//@     invariant [C08:table-names-inv] i == len(tableEntries) && statement != nil && fresh(statement) && statement.Name != nil && fresh(statement.Name)
+//@        && (forall k int :: {tableEntries[k]} (0 <= k && k < len(tableEntries)) ==> TableEntryOK(tableEntries[k], statement.Name.Value, mapScriptTypeToken.Literal, k))
+//@   loop 3
+//@     invariant [C08:inline-names-inv] statement != nil && fresh(statement) && statement.Name != nil && fresh(statement.Name)
+//@        && (forall k int :: {statement.MapScripts[k]} (0 <= k && k < len(statement.MapScripts)) ==> PlainEntryOK(statement.MapScripts[k], statement.Name.Value))
+//@        && (forall t int :: {statement.TableMapScripts[t]} (0 <= t && t < len(statement.TableMapScripts)) ==> TableOK(statement.TableMapScripts[t], statement.Name.Value))
+//@     invariant [C08:table-names-inv] i == len(tableEntries) && statement != nil && fresh(statement) && statement.Name != nil && fresh(statement.Name)
+//@        && (forall k int :: {tableEntries[k]} (0 <= k && k < len(tableEntries)) ==> TableEntryOK(tableEntries[k], statement.Name.Value, mapScriptTypeToken.Literal, k))
+//@   loop 4
+//@     invariant [C08:inline-names-inv] statement != nil && fresh(statement) && statement.Name != nil && fresh(statement.Name)
+//@        && (forall k int :: {statement.MapScripts[k]} (0 <= k && k < len(statement.MapScripts)) ==> PlainEntryOK(statement.MapScripts[k], statement.Name.Value))
+//@        && (forall t int :: {statement.TableMapScripts[t]} (0 <= t && t < len(statement.TableMapScripts)) ==> TableOK(statement.TableMapScripts[t], statement.Name.Value))
+//@     invariant [C08:table-names-inv] i == len(tableEntries) && statement != nil && fresh(statement) && statement.Name != nil && fresh(statement.Name)
+//@        && (forall k int :: {tableEntries[k]} (0 <= k && k < len(tableEntries)) ==> TableEntryOK(tableEntries[k], statement.Name.Value, mapScriptTypeToken.Literal, k))
 //@ end
 
 //@ func (p *Parser) parseMovesOperator
